@@ -79,7 +79,9 @@ def leaks(output, ndl):
     return found
 
 
-ORIGINS = ["dict", "dict+extras", "dict-odd", "dict-d-only", "native", "pem", "der", "pem-key-pair-file"]
+ORIGINS = ["dict", "dict+extras", "dict+many-extras", "native+many-parameters", "dict-odd", "dict-d-only", "native", "pem", "der", "pem-key-pair-file"]
+MANY = {"kid": "my-key", "alg": None, "x5t": "t", "x5t#S256": "t256", "x5u": "https://keys.example/chain.pem", "x5c": ["AAAA", "BBBB"],
+        "tenant": "acme", "env": "prod", "rotation": 7, "owner": "team-a", "region": "eu", "tier": "gold", "note": "kept with the key"}
 
 
 def build(kind, origin):
@@ -89,6 +91,13 @@ def build(kind, origin):
         return A.jkey(jwk, "dict"), jwk
     if origin == "dict+extras":
         return A.jkey({**jwk, "kid": "my-key", "use": "sig" if kty != "oct" and not jwk.get("crv", "").startswith("X") else "enc", "x5t": "t"}, "dict"), jwk
+    if origin in ("dict+many-extras", "native+many-parameters"):
+        # a JWK (or a natively imported key with parameters) that carries more members than the registries know of
+        many = {k: v for k, v in MANY.items() if v is not None}
+        many["use"] = "sig" if kty != "oct" and not jwk.get("crv", "").startswith("X") else "enc"
+        if origin.startswith("dict"):
+            return A.jkey({**jwk, **many}, "dict"), jwk
+        return A.jkey(jwk, "bytes" if kty == "oct" else "pem", params=many), jwk
     if origin == "dict-d-only":
         # RFC 7518 6.3.2: a private RSA JWK may carry d alone; for the other key types there is no such shape
         if kty != "RSA":
@@ -127,7 +136,8 @@ def operations(kty, crv):
     if kty != "oct":
         ops += ["as_pem(private=False,password)", "as_der(private=False,password)", "as_bytes(PEM,private=False,password)",
                 "as_pem(private=False)", "as_der(private=False)", "as_bytes(PEM,private=False)", "as_bytes(DER,private=False)",
-                "public-key-object re-export", "KeySet.as_dict(private=False)+import"]
+                "public-key-object re-export", "KeySet.as_dict(private=False)+import", "KeySet subclass over a registry of other key types: as_dict(private=False)",
+                "KeySet.as_dict(private=False) after the application took this key type out of JWKRegistry.key_types"]
     if kty == "oct" or kty == "RSA" or kty == "EC" or crv in ("Ed25519", "Ed448"):
         ops += ["jws-compact", "jws-flattened", "jws-general", "jws-7797", "jwt-jws", "jws-with-set"]
     if kty in ("oct", "RSA", "EC") or crv in ("X25519", "X448"):
@@ -193,6 +203,23 @@ def h_outputs(ctx):
         r = call(lambda: KeySet([key, other]).as_dict(private=False, use="sig" if not crv.startswith("X") else "enc"))
     elif op == "dict(key) after public export":
         r = call(lambda: (key.as_dict(private=False), key.as_dict(private=False, kid="x"))[1])
+    elif op.startswith("KeySet subclass over a registry"):
+        # an application that only ever IMPORTS some key types restricts its registry to them; keys of other types still reach its sets as objects
+        from joserfc.jwk import JWKRegistry
+
+        class NarrowRegistry(JWKRegistry):
+            key_types = {k: v for k, v in JWKRegistry.key_types.items() if k != kty}
+
+        class NarrowSet(KeySet):
+            registry_cls = NarrowRegistry
+        r = call(lambda: NarrowSet([key]).as_dict(private=False))
+    elif op.endswith("out of JWKRegistry.key_types"):
+        from joserfc.jwk import JWKRegistry
+        saved = JWKRegistry.key_types.pop(kty)
+        try:
+            r = call(lambda: KeySet([key]).as_dict(private=False))
+        finally:
+            JWKRegistry.key_types[kty] = saved
     elif op.startswith("KeySet.as_dict(private=False) mixed"):
         # mixed sets: a symmetric key ahead of / between asymmetric private keys
         mates = [A.jkey(scen.key("oct32", 3), "dict"), A.jkey(scen.key("P-384", 3), "dict"), A.jkey(scen.key("Ed25519", 3), "dict")]
